@@ -28,16 +28,26 @@ ParSeqs(T, n) ==
   \cup (IF n >= 3 THEN {s \in {<<p, q, r>> : p \in P1(T), q \in P1(T), r \in P1(T)} : DefaultsTrail(s)} ELSE {})
 RT == {AtomT("void"), AtomT("int"), ClsT(1, "ptr"), ClsT(1, "cref"), ClsT(1, "ref"), ClsT(1, "val")}
 SigMem(role, ret, ps) == [Mem("sig", "published") EXCEPT !.sig = [role |-> role, ret |-> ret, ps |-> ps]]
-CopyLike(ps) == ps # <<>> /\ ps[1].t.b = "cls" /\ ps[1].t.m \in {"val", "cref", "ref"}
+\* constructors: any parameter list that does not start with the class by value (ill-formed as a sole parameter), plus
+\* those whose first parameter is a (const / non-const / rvalue) reference to the class itself followed by nothing, by a
+\* mandatory parameter, or by a defaulted one ([class.copy.ctor]: all further parameters defaulted = copy / move
+\* constructor), plus a constructor template
+ByValueFirst(ps) == ps # <<>> /\ ps[1].t.b = "cls" /\ ps[1].t.m = "val"
+SelfRefSeqs == {<<Par(ClsT(1, m), TRUE, FALSE)>> : m \in {"ref", "rref"}}
+               \cup {<<Par(ClsT(1, m), TRUE, FALSE), Par(AtomT("int"), TRUE, d)>> : m \in {"ref", "rref"}, d \in BOOLEAN}
 SigSet(T, n) ==
   {SigMem(r, rt, ps) : r \in {"meth", "const", "static", "virt"}, rt \in RT, ps \in ParSeqs(T, n)}
-  \cup {SigMem("ctor", AtomT("void"), ps) : ps \in {x \in ParSeqs(T, n) : ~CopyLike(x)}}
+  \cup {SigMem("ctor", AtomT("void"), ps) : ps \in {x \in ParSeqs(T, n) : ~ByValueFirst(x)} \cup SelfRefSeqs}
+  \cup {Mem("tctor", "published")}
 SigMembers == <<SigSet(PT, 2), {}>>
 SigMembersT == <<SigSet(PTT, 2), {}>>
 SigHeads == {<<"class", FALSE, FALSE>>}
 
 \* ---- roles: fixed-shape members (operators, typecast, data members, destructors, enums), with comments
-RoleKinds == {"meth", "smeth", "vmeth", "opeq", "opneg", "cast", "data", "cdata", "sdata", "dtor", "vdtor", "enum", "senum", "enum1", "enumc"}
+RoleKinds == {"meth", "smeth", "vmeth", "opeq", "opneg", "cast", "data", "cdata", "sdata", "dtor", "vdtor", "enum"}
+\* the other ways to write an enum (scoped, on one line, with a comment in the list, with an unevaluated initialiser)
+EnumMembers == <<{[Mem(k, "published") EXCEPT !.cm = cm] : k \in {"senum", "enum1", "enumc", "enumz"}, cm \in Styles}
+                 \cup {Mem("meth", "published")}, {}>>
 RoleMembers == <<{[Mem(k, "published") EXCEPT !.cm = cm] : k \in RoleKinds, cm \in Styles}, {}>>
 RoleHeads == {<<"class", TRUE, FALSE>>}
 TwoStyles == {"", "//"}
@@ -109,6 +119,24 @@ CopyShape(x) ==
 M12 == <<1, 2>>
 NestCS == {"class"}
 
+\* ---- redecl: one function declared two or three times - at namespace scope, or as a member with its out-of-class
+\* definition; the first declaration names its parameters or not and may give a default, every declaration may carry a
+\* comment, later ones name their parameters or not
+IntP(n, d) == Par(AtomT("int"), n, d)
+RedeclPs == {<<IntP(TRUE, FALSE)>>, <<IntP(FALSE, FALSE)>>, <<IntP(TRUE, FALSE), IntP(TRUE, TRUE)>>,
+             <<IntP(FALSE, FALSE), IntP(FALSE, FALSE)>>, <<IntP(TRUE, FALSE), IntP(FALSE, TRUE)>>}
+Redecl1 == {<<[n |-> n, cm |-> cm]>> : n \in BOOLEAN, cm \in TwoStyles}
+Redecl2 == {<<[n |-> n1, cm |-> c1], [n |-> n2, cm |-> c2]>> : n1 \in BOOLEAN, n2 \in BOOLEAN, c1 \in TwoStyles, c2 \in TwoStyles}
+RedeclTops == {[Top("sig", TRUE, FALSE) EXCEPT !.sig = [role |-> "static", ret |-> AtomT("void"), ps |-> ps], !.cm = cm, !.re = re] :
+                 ps \in RedeclPs, cm \in {"", "/*"}, re \in Redecl1 \cup Redecl2}
+RedeclMembers == <<{[Mem("sig", "published") EXCEPT !.sig = [role |-> r, ret |-> AtomT("void"), ps |-> ps], !.cm = cm, !.re = re] :
+                      r \in {"meth", "const"}, ps \in RedeclPs, cm \in {"", "/*"}, re \in Redecl1}, {}>>
+RedeclShape(x) == (NC >= 1 => NT = 0) /\ (NT >= 1 => NC = 0)
+
+\* ---- props: accessors (documented or not, suitable or not) and the properties / sequences that name them
+PropMembers == <<{[Mem(k, "published") EXCEPT !.cm = cm] : k \in {"getter", "getter2", "seqget", "seqbad", "mprop", "mseq"}, cm \in TwoStyles}, {}>>
+PropShape(x) == \A c \in 1..NC : \A i \in 1..NM(c) : (Mbr(c, i).k \in {"getter", "getter2", "seqget", "seqbad"} => i = 1)
+
 \* ---- namespace-scope entities with comments
 DescTops == {[Top(k, TRUE, FALSE) EXCEPT !.cm = cm] : k \in {"func", "var", "macro"}, cm \in Styles}
 
@@ -145,9 +173,12 @@ ShapeSig(c, k) ==
     [] k = "opeq"  -> [role |-> "const", ret |-> AtomT("bool"), ps |-> <<Par(ClsT(c, "cref"), TRUE, FALSE)>>]
     [] k = "opneg" -> [role |-> "const", ret |-> ClsT(c, "val"), ps |-> <<>>]
     [] k = "cast"  -> [role |-> "const", ret |-> AtomT("int"), ps |-> <<>>]
+    [] k = "getter" -> [role |-> "const", ret |-> AtomT("int"), ps |-> <<>>]
+    [] k = "getter2" -> [role |-> "const", ret |-> AtomT("int"), ps |-> <<Par(AtomT("int"), FALSE, FALSE), Par(AtomT("int"), FALSE, FALSE)>>]
     [] OTHER -> NoSig
-SigOf(c, i) == IF Mbr(c, i).k = "sig" THEN Mbr(c, i).sig ELSE ShapeSig(c, Mbr(c, i).k)
-IsFn(k) == k \in {"sig", "meth", "smeth", "vmeth", "opeq", "opneg", "cast"}
+\* the signature the database must show: the declarations of the function merged
+SigOf(c, i) == IF Mbr(c, i).k = "sig" THEN MergedSig(Mbr(c, i)) ELSE ShapeSig(c, Mbr(c, i).k)
+IsFn(k) == k \in {"sig", "meth", "smeth", "vmeth", "opeq", "opneg", "cast", "getter", "getter2"}
 
 \* an operator declared without an explicit parameter is a unary operator function; it is a function of its own, not an
 \* overload of the binary operator of the same name
@@ -160,9 +191,12 @@ FnDesc(c, i) == LET s == SigOf(c, i) k == Mbr(c, i).k IN
   [c |-> c, i |-> i, variants |-> Variants(c, s), ret |-> RetFacts(c, s), fid |-> FnId(c, i),
    flags |-> [method |-> TRUE, virtual |-> IsVirtualFn(c, i), ctor |-> s.role = "ctor",
               unary |-> UnaryFn(c, i), typecast |-> TypecastFn(c, i)],
-   cm |-> Mbr(c, i).cm]
+   cm |-> Mbr(c, i).cm, cms |-> DeclComments(Mbr(c, i))]
+TopFnDesc(t) == LET d == lib.tops[t] IN
+  [t |-> t, variants |-> Variants(0, MergedSig(d)), ret |-> RetFacts(0, d.sig), cms |-> DeclComments(d)]
 FnMembers(c) == {i \in 1..NM(c) : [t |-> "m", c |-> c, i |-> i] \in RCallable /\ IsFn(Mbr(c, i).k)}
 NMethods(c) == Cardinality({FnId(c, i) : i \in {j \in FnMembers(c) : ~TypecastFn(c, j) /\ SigOf(c, j).role # "ctor"}})
+               + 2 * Cardinality({j \in 1..NM(c) : [t |-> "m", c |-> c, i |-> j] \in RCallable /\ Mbr(c, j).k \in {"seqget", "seqbad"}})
 NCasts(c) == Cardinality({FnId(c, i) : i \in {j \in FnMembers(c) : TypecastFn(c, j)}})
 \* a data member: element + synthesized accessor functions
 DataDesc(c, i) == LET k == Mbr(c, i).k IN
@@ -172,20 +206,47 @@ DataDesc(c, i) == LET k == Mbr(c, i).k IN
 \* constructors of the copy family
 CtorSig(c, i) == [role |-> "ctor", ret |-> AtomT("void"),
                   ps |-> <<Par(ClsT(IF Mbr(c, i).k = "cctor" THEN c ELSE Mbr(c, i).rc, "cref"), TRUE, FALSE)>>]
-CtorDesc(c, i) == [c |-> c, i |-> i, variants |-> Variants(c, CtorSig(c, i)), copy |-> Mbr(c, i).k = "cctor"]
+\* [class.copy.ctor]: a non-template constructor whose first parameter is X& / const X& (X&&) and whose other parameters
+\* all have default arguments is a copy (move) constructor; the implicit copy constructor exists unless the class
+\* declares a copy constructor, a move constructor or a move assignment operator; the implicit default constructor unless
+\* it declares any constructor
+IsCtor(c, i) == Mbr(c, i).k \in {"ctorof", "cctor", "tctor"} \/ (Mbr(c, i).k = "sig" /\ Mbr(c, i).sig.role = "ctor")
+CtorSigOf(c, i) == IF Mbr(c, i).k = "sig" THEN Mbr(c, i).sig ELSE CtorSig(c, i)
+SelfRefFirst(c, s, modes) ==
+  /\ s.ps # <<>> /\ s.ps[1].t.b = "cls" /\ s.ps[1].t.c = c /\ s.ps[1].t.m \in modes
+  /\ \A q \in 2..Len(s.ps) : s.ps[q].d
+IsCopyCtor(c, i) == IsCtor(c, i) /\ Mbr(c, i).k # "tctor" /\ SelfRefFirst(c, CtorSigOf(c, i), {"cref", "ref"})
+IsMoveCtor(c, i) == IsCtor(c, i) /\ Mbr(c, i).k # "tctor" /\ SelfRefFirst(c, CtorSigOf(c, i), {"rref"})
+ImplicitCopy(c) == \A i \in 1..NM(c) : ~IsCopyCtor(c, i) /\ ~IsMoveCtor(c, i)
+ImplicitDefault(c) == \A i \in 1..NM(c) : ~IsCtor(c, i)
+\* (constructibility of classes with bases, const members ... is C10's subject: no claim there)
+CtorClaim(c) == Cls(c).bases = <<>> /\ \A i \in 1..NM(c) : Mbr(c, i).k \notin {"cdata", "ctor"}
+CtorsDesc(c) ==
+  [c |-> c, implicitCopy |-> ImplicitCopy(c), implicitDefault |-> ImplicitDefault(c),
+   declared |-> {[i |-> i, variants |-> Variants(c, CtorSigOf(c, i)), copy |-> IsCopyCtor(c, i)] :
+                   i \in {j \in 1..NM(c) : IsCtor(c, j) /\ [t |-> "m", c |-> c, i |-> j] \in RCallable}}]
+\* a property / sequence: its own comment, else the comment of the accessor it names
+PropDesc(c, i) == [c |-> c, i |-> i, seq |-> Mbr(c, i).k = "mseq", g |-> Mbr(c, i).gi,
+                   cm |-> Mbr(c, i).cm, gcm |-> Mbr(c, Mbr(c, i).gi).cm]
 DtorDesc(c, i) == [c |-> c, i |-> i, virtual |-> VirtualDtor(c), vclaim |-> DeclaresDtor(DtorOwner(c)),
                    inherited |-> InheritsDtor(c), owner |-> DtorOwner(c)]
 
 Describe ==
-  [fns |-> {FnDesc(e.c, e.i) : e \in {x \in RCallable : x.t = "m" /\ IsFn(Mbr(x.c, x.i).k)}},
+  [fns |-> {FnDesc(e.c, e.i) : e \in {x \in RCallable : x.t = "m" /\ IsFn(Mbr(x.c, x.i).k) /\ ~IsCtor(x.c, x.i)}},
+   topfns |-> {TopFnDesc(e.i) : e \in {x \in RCallable : x.t = "t" /\ lib.tops[x.i].k = "sig"}},
+   props |-> {PropDesc(e.c, e.i) : e \in {x \in RCallable : x.t = "m" /\ Mbr(x.c, x.i).k \in PropKinds}},
+   nprops |-> {[c |-> x.c, elements |-> Cardinality({i \in 1..NM(x.c) : [t |-> "m", c |-> x.c, i |-> i] \in RCallable
+                                                                          /\ Mbr(x.c, i).k \in (DataKinds \cup {"mprop"})}),
+                seqs |-> Cardinality({i \in 1..NM(x.c) : [t |-> "m", c |-> x.c, i |-> i] \in RCallable /\ Mbr(x.c, i).k = "mseq"})] :
+                 x \in {y \in RDefined : IsClassT(y)}},
    data |-> {DataDesc(e.c, e.i) : e \in {x \in RCallable : x.t = "m" /\ Mbr(x.c, x.i).k \in {"data", "cdata", "sdata"}}},
-   ctors |-> {CtorDesc(e.c, e.i) : e \in {x \in RCallable : x.t = "m" /\ Mbr(x.c, x.i).k \in {"ctorof", "cctor"}}},
+   ctors |-> {CtorsDesc(x.c) : x \in {y \in RDefined : IsClassT(y) /\ CtorClaim(y.c)}},
    dtors |-> {DtorDesc(e.c, e.i) : e \in {x \in RCallable : x.t = "m" /\ Mbr(x.c, x.i).k \in {"dtor", "vdtor"}}},
    classes |-> {[c |-> x.c, derivations |-> Derivations(x.c), cm |-> Cls(x.c).cm, poly |-> Poly(x.c),
                  nmethods |-> NMethods(x.c), ncasts |-> NCasts(x.c),
                  nested |-> Cls(x.c).outer # 0, outer |-> Cls(x.c).outer] : x \in {y \in RDefined : IsClassT(y)}},
    enums |-> {[c |-> x.c, i |-> x.i, cm |-> Mbr(x.c, x.i).cm, k |-> Mbr(x.c, x.i).k] : x \in {y \in RDefined : ~IsClassT(y)}},
-   tops |-> {[t |-> e.i, cm |-> lib.tops[e.i].cm] : e \in {x \in RCallable : x.t = "t"}},
+   tops |-> {[t |-> e.i, cm |-> lib.tops[e.i].cm] : e \in {x \in RCallable : x.t = "t" /\ lib.tops[x.i].k # "sig"}},
    typedefs |-> {[t |-> t, target |-> lib.tops[t].rc] : t \in {x \in 1..NT : TypedefGate(x)}}]
 
 \* model invariants: the description is a function of the entity
